@@ -29,14 +29,18 @@
 (*                       dispatcher did (discard, cancel, maxtries,        *)
 (*                       requeue, done, progress, hardtimeout, panic) or   *)
 (*                       blocked (nobody takes the result)                 *)
-(*   Wake(b,g)           idle timer generation g of batch b fires          *)
+(*   Wake(b,g)           the idle timer armed for window g of batch b      *)
+(*                       fires (window 1 starts with the batch, every      *)
+(*                       accounted success starts the next one)            *)
 (*   Cancel(b)  HardFire(b)  Stop (res ok | hang)                          *)
 (***************************************************************************)
 EXTENDS Integers, Sequences, FiniteSets
 
 Range1(s) == {s[x] : x \in 1..Len(s)}
 
-AbsInit == [opts |-> <<>>, fails |-> <<>>, cancel |-> <<>>, hardx |-> <<>>,
+\* win[b]: number of the idle window batch b is in = 1 + the successful results
+\* accounted for it while it was alive (each of them starts a new window).
+AbsInit == [opts |-> <<>>, fails |-> <<>>, cancel |-> <<>>, hardx |-> <<>>, win |-> <<>>,
             latest |-> {}, live |-> {}, hold |-> {}, stopped |-> 0]
 
 NB(a) == Len(a.opts)
@@ -57,14 +61,17 @@ AbsNext(a, act, o2) ==
          [a EXCEPT !.opts = Append(@, [n |-> act.n, retr |-> act.retr,
                                        hard |-> act.hard, prog |-> act.prog]),
                    !.fails = Append(@, Zeros(act.n)),
-                   !.cancel = Append(@, 0), !.hardx = Append(@, 0)]
+                   !.cancel = Append(@, 0), !.hardx = Append(@, 0), !.win = Append(@, 1)]
     [] act.op = "Dispatch" ->
          [a EXCEPT !.hold = @ \cup {<<act.a, act.i, act.b, act.k>>}]
     [] act.op = "Result" ->
          [a EXCEPT !.hold = @ \ {<<act.a, act.i, act.b, act.k>>},
                    !.fails = IF act.e \in {1, 2, 4} /\ act.b \in 1..Len(@)
                              THEN [@ EXCEPT ![act.b][act.k] = @ + 1] ELSE @,
-                   !.live = IF act.e = 2 THEN @ \ {<<act.a, act.i>>} ELSE @]
+                   !.live = IF act.e = 2 THEN @ \ {<<act.a, act.i>>} ELSE @,
+                   !.win = IF /\ act.e = 0 /\ act.res # "blocked" /\ act.b \in 1..Len(@)
+                              /\ act.b \in 1..Len(o2.verd) /\ Len(o2.verd[act.b]) = 0
+                           THEN [@ EXCEPT ![act.b] = @ + 1] ELSE @]
     [] act.op = "Cancel" /\ act.b \in 1..NB(a) ->
          [a EXCEPT !.cancel[act.b] = 1]
     [] act.op = "HardFire" /\ act.b \in 1..NB(a) ->
@@ -83,13 +90,12 @@ Justified(a2, o2, act, b, v) ==
         [] v = 5 -> act.op = "Stop" \/ a2.stopped = 1
         [] v = 3 -> a2.cancel[b] = 1
         [] v = 1 -> \/ (op.hard = 1 /\ a2.hardx[b] = 1)
-                    \/ (op.prog = 1 /\ act.op = "Wake" /\ act.b = b)
+                    \* the idle timer of the CURRENT window fired: the wake of a window
+                    \* in which the batch made progress is no cause for a timeout
+                    \/ (op.prog = 1 /\ act.op = "Wake" /\ act.b = b /\ act.g = a2.win[b])
                     \/ retry(1)
         [] v \in {2, 4} -> retry(v)
         [] OTHER -> FALSE
-
-NewVerdicts(o, o2) ==
-  {<<b, o2.verd[b][x]>> : b \in 1..Len(o2.verd), x \in 1..2} \ {<<0, 0>>}
 
 Viol(a, o, act, a2, o2) ==
   LET nb == Len(o2.verd)
@@ -106,6 +112,11 @@ Viol(a, o, act, a2, o2) ==
         THEN {"ErrorHasCause"} ELSE {})
   \cup (IF \E b \in 1..nb : allAns(b) /\ open(b) /\ act.res # "blocked"
         THEN {"AllAnsweredGetsVerdict"} ELSE {})
+  \* once the hard deadline has passed, the next result the dispatcher accounts
+  \* for the batch ends it (it is not retried any further)
+  \cup (IF /\ act.op = "Result" /\ act.res # "blocked" /\ act.b \in 1..NB(a2) /\ act.b \in 1..nb
+           /\ a2.opts[act.b].hard = 1 /\ a2.hardx[act.b] = 1 /\ open(act.b)
+        THEN {"HardDeadlineEndsBatch"} ELSE {})
   \cup (IF act.op = "Query" /\ act.res = "blocked" THEN {"QueryReturns"} ELSE {})
   \cup (IF act.op = "Result" /\ act.res = "blocked" THEN {"ResultAccepted"} ELSE {})
   \cup (IF act.op = "Stop" /\ act.res # "ok" THEN {"StopReturns"} ELSE {})
